@@ -96,6 +96,9 @@ func (d *uripostDecoder) Scan(ctx context.Context) (DecodedAmmo, error) {
 // readBlock read one header at time and set to commonHeader or read full request
 func (d *uripostDecoder) readBlock(reader *bufio.Reader, commonHeader http.Header) (*ammo.Ammo, error) {
 	data, err := reader.ReadString('\n')
+	if err == io.EOF && len(data) > 0 {
+		err = nil // Last line without final newline.
+	}
 	if err != nil {
 		return nil, err
 	}
